@@ -37,6 +37,21 @@ def _effort(ctx: Ctx, n: int) -> int:
     return 4 * n if getattr(ctx, "oracle_only", False) else n
 
 
+def _sample(ctx: Ctx, case: Case, _key=None, **detail):
+    """evidence samples of the generator properties: the first evaluation of up to two catalogue and three random
+    specifications, written out (specification text, class, the input, what the real code answered)"""
+    seen = ctx.__dict__.setdefault("_sampled_specs", {})
+    tag = _key or case.tag
+    if tag in seen:
+        return
+    kind = "catalogue" if case.flags.get("catalogue") else "random"
+    if sum(1 for k in seen.values() if k == kind) >= (2 if kind == "catalogue" else 3):
+        return
+    seen[tag] = kind
+    short = {k: (v[:400] + "…" if isinstance(v, str) and len(v) > 400 else v) for k, v in detail.items()}
+    ctx.sample(dict({"specification": case.tag, "xml": {d: (x[:1200] + "…" if len(x) > 1200 else x) for d, x in case.xml().items()}}, **short))
+
+
 def fails(ctx: Ctx, case: Case, what: str, detail: dict, key=None):
     ctx.violation("property-fails", what, dict(case.replay_doc(), **detail), key=key)
 
@@ -150,6 +165,7 @@ def run_c02(ctx: Ctx):
                             model, spec = ctx.driver.ask([f"gen ser {cname} {int(san)} {ro}", f"gen wire {cname} {int(san)} {ro}"])
                             n_obj += 1
                             ctx.sig((cname.__hash__() % 7, san, classify(real), len(real) // 16))
+                            _sample(ctx, case, **{"class": cname, "object": ro, "sanitising": san, "impl": real, "model": model, "xml_reading": spec})
                             # oracle: exactly the bytes the XML prescribes
                             if real.startswith("ok"):
                                 want = "ok " + real.split()[1]
@@ -430,6 +446,8 @@ def run_c03(ctx: Ctx, avoid_known_bugs=True):
                         head = real.split()[0] + (real.split()[1] if real.startswith("err") else "")
                         ctx.sig((hash(cname) % 5, ch, head, min(len(data), 6), data[-1:] in (b"\xff", b"\xfe", b"\x00")))
                         detail = {"class": cname, "bytes": common.tohex(data), "chunked": ch, "impl": real, "model": model, "xml_reading": spec}
+                        if len(data) >= 2:
+                            _sample(ctx, case, **detail)
                         # oracle: exactly the object the reading rules prescribe; only the documented ValueError
                         if real.startswith("ok"):
                             if spec.startswith("ok") and strip_mode(spec) != strip_mode(real):
@@ -527,6 +545,8 @@ def run_c01(ctx: Ctx):
                     rb = genlib.render(back)
                     want = ro.rsplit(" ", 1)[0] + f" {len(data)}"
                     ctx.sig((hash(cname) % 7, len(data) // 8, ro.count(" O "), " N" in ro))
+                    _sample(ctx, case, **{"class": cname, "object": ro, "bytes": common.tohex(data), "deserialised": rb, "remaining": reader.remaining,
+                                          "byte_size": back.byte_size})
                     if genlib.render_nosize(back) != genlib.render_nosize(obj) or reader.remaining != 0 or reader.position != len(data) \
                             or back.byte_size != len(data):
                         # The generator of "wire-unambiguous" specifications is ours and may be wrong; the property's
@@ -737,21 +757,26 @@ def run_c15(ctx: Ctx):
                     data = bytes(w.to_bytearray())
                     # (under the time limit every deserialisation of the harness runs under: known finding de:Diverges)
                     seen += nested_entry_modes(case.run, cls, lambda: genlib.de_obj(cls, data, False, timeout=0.5))
+                    # one evaluation per distinct (method, callee, entry mode) of this object: an array of a thousand items (or a
+                    # deserialisation that loops over zero-byte items until the time limit: known finding de:Diverges) enters the
+                    # same class a thousand times; every call is judged, the repeats are not counted as work
+                    n += len(set(seen))
                     for meth, callee, mode in seen:
-                        n += 1
                         if callee in want and mode != want[callee]:
                             ctx.sig(("nested-entry", meth, mode))
                             fails(ctx, case, f"{cname}.{meth} (entered with the mode off) enters {callee}.{meth} with the mode "
                                   f"{'on' if mode else 'off'}, but {callee} lies {'inside' if want[callee] else 'outside'} the chunked "
                                   f"sections of {cname}", {"class": cname, "object": genlib.render(obj), "callee": callee, "method": meth})
                             return
-                    ctx.count("nested_entry_modes_checked", len(seen))
+                    ctx.count("nested_entry_modes_checked", len(set(seen)))
+                    ctx.count("nested_calls_observed_bucket." + ("1-9" if len(seen) < 10 else "10-999" if len(seen) < 1000 else "1000+"))
                 for obj, valid in objs:
                     ro = genlib.render(obj)
                     for san in (False, True):
                         real = genlib.do_ser(cls, obj, san)
                         n += 1
                         ctx.sig(("ser", san, valid, classify(real)))
+                        _sample(ctx, case, **{"class": cname, "object": ro, "entry_mode": san, "valid": valid, "impl": real})
                         if not real.endswith(f"san {int(san)}"):
                             fails(ctx, case, f"{cname}.serialize left the writer's sanitisation mode changed (entry {san}): `{real[-40:]}`",
                                   {"class": cname, "object": ro, "san": san, "impl": real})
@@ -856,6 +881,7 @@ def run_c16(ctx: Ctx):
                     kind = violation_kind(what)
                     ctx.count("violation." + kind)
                     ctx.sig((kind, classify(real), hash(cname) % 5))
+                    _sample(ctx, case, **{"class": cname, "object": ro, "fault": what, "impl": real, "model": model})
                     if classify(real) != "refused":
                         key = "unrefused:" + kind
                         fails(ctx, case, f"{cname}: object violating its declaration ({what}) was not refused: `{real[:100]}`",
@@ -990,6 +1016,7 @@ def run_c19(ctx: Ctx):
                         second = third
                     n += 1
                     ctx.sig((hash(cname) % 7, classify(first), sum(isinstance(v, list) for v in kw2.values())))
+                    _sample(ctx, case, **{"class": cname, "object": ro, "first_serialisation": first, "after_caller_side_mutation_and_other_mode": second})
                     if first != second or genlib.render(obj) != ro:
                         at = next((i for i, (x, y) in enumerate(zip(first, second)) if x != y), min(len(first), len(second)))
                         fails(ctx, case, f"{cname}: serialising the same instance again gives different bytes (caller-side changes of "
@@ -1135,6 +1162,8 @@ def run_c17(ctx: Ctx):
                 ctx.count(f"rule.{rule}")
                 ctx.count(f"placement.{placement}")
                 ctx.sig((rule, placement))
+                _sample(ctx, ed, _key=case.tag, rule=rule, placement=placement, declarative_rules_rejecting=bad,
+                        real_generator="rejects: " + repr(ed.run.error) if real_rejects else "accepts", model=model[:200])
                 if not real_rejects:
                     key = "accepted:" + rule
                     fails(ctx, ed, f"ill-formed specification ({rule}, placed {placement}) is accepted by the generator", {"rule": rule,
@@ -1318,6 +1347,8 @@ def run_c18(ctx: Ctx):
                     if p.returncode != 0:
                         raise common.CheckAbort(f"genworker failed: {err[-500:]}")
                     res = _json.loads(out)
+                    _sample(ctx, case, PYTHONHASHSEED=hs, walk_order_seed=ws, plan=plan, generated_files=len(ref),
+                            runs=[{"step": r_["step"], "error": r_["error"], "tree_equals_reference": r_["tree"] == ref} for r_ in res["runs"]])
                     for run in res["runs"]:
                         if run["error"] is not None or run["tree"] != ref:
                             diff = sorted(set(run["tree"].items()) ^ set(ref.items()))[:4]
